@@ -296,6 +296,10 @@ class Verdict:
             fh.write('\n')
         if uniq:
             return 1
+        if not cov.get('samples'):
+            # the evidence schema requires at least one actual case; a run that cannot show one is not evidence
+            print('INCONCLUSIVE property=%s: the run recorded no sample case for its evidence file' % self.prop)
+            return 2
         if min_obs:
             for name, (got, want) in min_obs.items():
                 if got < want:
